@@ -126,6 +126,69 @@ func c05Notify(prefix []int, mode string, pad int) explore.Outcome {
 	return finishOutcome(res, obs, viol, true)
 }
 
+// c05Backlog: the reader of session A's stream stalls while n notifications are sent to A, then
+// reads again. Whatever SendNotification reported as sent must arrive, once, in sending order; a
+// send that could not be queued must say so.
+func c05Backlog(prefix []int, mode string, n int) explore.Outcome {
+	var viol []explore.Violation
+	obs := &hx.Log{}
+	res := vsched.Run(cfgFor(prefix), func() {
+		vsched.SetBranching(false)
+		w, err := c05New(mode, 2, true)
+		if err != nil {
+			viol = append(viol, V("harness", "%v", err))
+			return
+		}
+		w.peers[0].Stream.Stall(true)
+		var okTags []string
+		refused := 0
+		done := &hx.Flag{}
+		vsched.Go("sender", func() {
+			for i := 0; i < n; i++ {
+				tag := fmt.Sprintf("t%03d", i)
+				if err := w.send(0, tag, 0); err == nil {
+					okTags = append(okTags, tag)
+				} else {
+					refused++
+				}
+			}
+			done.Set()
+		})
+		vsched.Quiesce()
+		vsched.SetBranching(true)
+		w.peers[0].Stream.Stall(false) // the client reads again
+		vsched.Quiesce()
+		k := func(s string) string { return s + ":backlog:" + mode }
+		if !done.Get() {
+			viol = append(viol, V(k("send-hangs"), "SendNotification never returned although the reader resumed; blocked: %v", vsched.LiveThreads()))
+			return
+		}
+		got := w.notes(0)
+		obs.Add("sent-ok=%d refused=%d got=%d", len(okTags), refused, len(got))
+		if strings.Join(got, ",") != strings.Join(okTags, ",") {
+			first := ""
+			for i := 0; i < len(got) || i < len(okTags); i++ {
+				g, o := "<none>", "<none>"
+				if i < len(got) {
+					g = got[i]
+				}
+				if i < len(okTags) {
+					o = okTags[i]
+				}
+				if g != o {
+					first = fmt.Sprintf("position %d: delivered %s, reported sent %s", i, g, o)
+					break
+				}
+			}
+			viol = append(viol, V(k("order-or-count"), "%d notifications were reported sent and %d refused, the stream carries %d; first difference at %s", len(okTags), refused, len(got), first))
+		}
+		if other := w.notes(1); len(other) != 0 {
+			viol = append(viol, V(k("leak-to-other-session"), "session B's stream carries %v", other))
+		}
+	})
+	return finishOutcome(res, obs, viol, true)
+}
+
 func idx(xs []string, x string) int {
 	for i, y := range xs {
 		if y == x {
@@ -553,6 +616,14 @@ func init() {
 				Doc: "server-issued roots/list: " + v})
 		}
 	}
+	for _, mode := range []string{"ss", "ls"} {
+		mode := mode
+		for _, n := range []int{3, 101, 103} {
+			n := n
+			RegisterScenario(&Scenario{Name: fmt.Sprintf("c05/backlog/%s/%d", mode, n), Run: func(p []int, m []vsched.ChoicePoint) explore.Outcome { return c05Backlog(p, mode, n) },
+				Doc: fmt.Sprintf("%d notifications sent to a session whose stream reader stalls, then resumes (queue capacity of the legacy SSE session is 100)", n)})
+		}
+	}
 	c20Extra = append(c20Extra, "c05/notify/ss/pad0", "c05/roots/ss/two-sessions", "c05/roots/ls/two-sessions")
 	RegisterEnum(&Enum{Name: "c05/endings", Doc: "how a server-issued request ends (answer, error answer, ctx cancel, 30 s virtual time-out, stream closed) on Streamable, legacy SSE and stdio servers; nothing stays pending",
 		Count: func(string) int { return 15 }, Eval: c05Endings})
@@ -560,13 +631,18 @@ func init() {
 		Count: func(string) int { return 1 }, Eval: c05BFS})
 	RegisterCheck("C05", func(c *Ctx) {
 		c.Level = "exploration"
-		c.Rule = "DFS (sleep-set reduced, preemption bounded) of concurrent SendNotification/Broadcast/Filtered/ListRoots with client posts from two sessions (one adversarial: it forges an answer with a guessed request id); explicit-state BFS of send/broadcast/filtered accounting over open/close/delete histories against a reference model; enumeration of the ways a server-issued request ends"
+		c.Rule = "DFS (sleep-set reduced, preemption bounded) of concurrent SendNotification/Broadcast/Filtered/ListRoots with client posts from two sessions (one adversarial: it forges an answer with a guessed request id); explicit-state BFS of send/broadcast/filtered accounting over open/close/delete histories against a reference model; enumeration of the ways a server-issued request ends; backlog scenarios (3, 101, 103 notifications to a session whose reader stalls and resumes: whatever was reported sent arrives once and in order)"
 		c.Assume = append(c.Assume, "sessions are held by reference peers that read raw SSE frames", "virtual time for the 30 s request time-out", "memnet replaces net/http")
 		for _, mode := range []string{"ss", "ls"} {
 			c.DFSBoth(fmt.Sprintf("c05/notify/%s/pad0", mode), explore.Bounds{Preempt: c.Pick(2, 4), Dev: 1, MaxExec: c.Pick(6000, 300000)}, 1)
 			c.DFS(fmt.Sprintf("c05/notify/%s/pad65537", mode), explore.Bounds{Preempt: c.Pick(1, 2), Dev: 1, POR: true, MaxExec: c.Pick(3000, 100000)})
 			for _, v := range []string{"foreign-answer", "two-sessions"} {
 				c.DFSBoth(fmt.Sprintf("c05/roots/%s/%s", mode, v), explore.Bounds{Preempt: c.Pick(2, 3), Dev: 1, MaxExec: c.Pick(6000, 300000)}, 1)
+			}
+		}
+		for _, mode := range []string{"ss", "ls"} {
+			for _, n := range []int{3, 101, 103} {
+				c.DFS(fmt.Sprintf("c05/backlog/%s/%d", mode, n), explore.Bounds{Preempt: c.Pick(1, 2), Dev: 0, POR: true, MaxExec: c.Pick(1500, 60000)})
 			}
 		}
 		c.Enumerate("c05/endings")
